@@ -8,6 +8,7 @@ import Driver.C16Cmd
 import Driver.C04Cmd
 import Driver.C08Cmd
 import Driver.C10Cmd
+import Driver.GateCmd
 
 def main (args : List String) : IO UInt32 :=
   match args with
@@ -23,4 +24,5 @@ def main (args : List String) : IO UInt32 :=
   | ["corr", "c04"] => Driver.c04Cmd
   | ["corr", "c08"] => Driver.lineLoop Driver.c08Line
   | ["corr", "c10"] => Driver.lineLoop Driver.c10Line
+  | ["corr", "gates"] => Driver.lineLoop Driver.gateLine
   | _ => do IO.eprintln "usage: driver <trace|corr> …"; pure 2
